@@ -19,6 +19,9 @@ FIXVAL = {"scale": (1.7, 0.6, 1), "shape": (1.3, 2.2, 1), "loc": (0.0, 0.25, 0),
           "vmu": (0.3, -0.4, 0)}
 # a fourth value for circular locations: outside [-pi, pi] (scipy's von Mises fit wraps the location)
 FIXVAL_EXTRA = {"vmu": 4.0}
+# boundary values of the circular location: exactly +pi and -pi (which = 4, 5), just inside (6)
+import math
+FIXVAL_EXTRA_MORE = {4: {"vmu": math.pi}, 5: {"vmu": -math.pi}, 6: {"vmu": 3.141592653589793 - 1e-9}}
 TRUE = {"WeibullDistribution": dict(alpha=1.5, beta=1.6, gamma=0.5),
         "LogNormalDistribution": dict(mu=0.5, sigma=0.4),
         "NormalDistribution": dict(mu=0.5, sigma=0.6),
@@ -28,9 +31,10 @@ TRUE = {"WeibullDistribution": dict(alpha=1.5, beta=1.6, gamma=0.5),
         "VonMisesDistribution": dict(kappa=2.0, mu=0.3),
         "GumbelR": dict(loc=0.5, scale=0.6),
         "GammaS": dict(a=2.0, loc=0.5, scale=0.6),
-        "WeibullMinS": dict(c=1.6, loc=0.5, scale=1.5)}
+        "WeibullMinS": dict(c=1.6, loc=0.5, scale=1.5),
+        "ExponWeibS": dict(a=2.5, c=1.3, loc=0.5, scale=1.2)}
 POSITIVE = {"WeibullDistribution", "LogNormalDistribution", "LogNormalNormFitDistribution",
-            "ExponentiatedWeibullDistribution", "GeneralizedGammaDistribution", "GammaS", "WeibullMinS"}
+            "ExponentiatedWeibullDistribution", "GeneralizedGammaDistribution", "GammaS", "WeibullMinS", "ExponWeibS"}
 
 
 def data_for(fam, source, n, seed):
@@ -69,7 +73,8 @@ def run_case(case):
     fam, fixed_names, which = case["family"], case["fixed"], case["which"]
     cls, names, roles = zoo.FAMILIES[fam]
     role = dict(zip(names, roles))
-    fixed = {n: (FIXVAL[role[n]][which] if which < 3 else FIXVAL_EXTRA.get(role[n], FIXVAL[role[n]][0])) for n in fixed_names}
+    fixed = {n: (FIXVAL[role[n]][which] if which < 3 else (FIXVAL_EXTRA if which == 3 else FIXVAL_EXTRA_MORE[which]).get(role[n], FIXVAL[role[n]][0]))
+             for n in fixed_names}
     viol = []
     count = {"checks": 0}
 
@@ -270,7 +275,7 @@ def main(ctx):
     for fam, (cls, names, roles) in zoo.FAMILIES.items():
         for k in range(1, len(names) + 1):
             for fx in itertools.combinations(names, k):
-                for which in ((0, 1, 2, 3) if (fam == "VonMisesDistribution" and "mu" in fx) else (0, 1, 2)):
+                for which in ((0, 1, 2, 3, 4, 5, 6) if (fam == "VonMisesDistribution" and "mu" in fx) else (0, 1, 2)):
                     cases.append({"family": fam, "fixed": list(fx), "which": which, "mode": "construct"})
                     if k == len(names):
                         continue
